@@ -396,4 +396,54 @@ Section Items.
     constructor. split; cbn [fst snd]; [|exact Hg2].
     apply (sc_max k); [exact Hk| |exact Hmn]. apply (rel_maybe_min_fo k Hk); [exact Hmc|apply Hlim; exact Hg2].
   Qed.
+  (* ---- 9. expand_flexible_tracks: the items crossing a flexible track *)
+  Lemma rel_m_flex_items ax inner inner' a a' items items' :
+    sz_rel O inner inner' -> gavail_rel k a a' -> Forall2 (gitem_rel k) items items' ->
+    ProgRel k (pair_rel (Forall2 (fitem_rel k)) (Forall2 (gitem_rel k))) (m_flex_items ax inner a items) (m_flex_items ax inner' a' items').
+  Proof.
+    intros Hin Ha Hit. unfold m_flex_items.
+    destruct a, a'; cbn [gavail_rel] in Ha; try contradiction; try (constructor; split; cbn [fst snd]; [constructor|exact Hit]).
+    eapply pbind_rel with (RA := pair_rel (Forall2 (fitem_rel k)) (Forall2 (gitem_rel k))).
+    - apply pmap_acc_rel with (RS := Forall2 (fitem_rel k)) (RX := gitem_rel k); [|exact Hit|constructor].
+      intros acc acc' g g' Hacc Hg. gi_open Hg. rewrite Egxf. destruct (get_ax (g_xflex g) ax).
+      + eapply pbind_rel; [apply rel_max_content_contribution_cached; [exact Hin|exact Hg|apply rel_size_NONE]|].
+        intros [v g1] [v' g1'] [Hv Hg1]. cbn [fst snd] in Hv, Hg1. constructor. split; cbn [fst snd]; [|exact Hg1].
+        apply rel_app; [exact Hacc|]. constructor; [|constructor]. rewrite (view_rel ax g1 g1' Hg1). split; cbn [fst snd]; [reflexivity|exact Hv].
+      + constructor. split; cbn [fst snd]; assumption.
+    - intros [acc its] [acc' its'] [Hacc Hits]. cbn [fst snd] in Hacc, Hits. constructor. split; cbn [fst snd]; assumption.
+  Qed.
+
+  (* ---- 10. the re-run test *)
+  Lemma rel_opt_eqb a a' b b' : O a a' -> O b b' -> opt_eqb a' b' = opt_eqb a b.
+  Proof.
+    destruct a, a', b, b'; cbn [op_rel opt_eqb]; intros Ha Hb; try contradiction; try reflexivity. apply (sc_eqb k); assumption.
+  Qed.
+
+  Lemma rel_m_rerun_any ax inner inner' ot ot' oadj oadj' items items' :
+    sz_rel O inner inner' -> tracks_rel k ot ot' -> L oadj oadj' -> Forall2 (gitem_rel k) items items' ->
+    ProgRel k (pair_rel eq (Forall2 (gitem_rel k))) (m_rerun_any ax inner ot oadj items) (m_rerun_any ax inner' ot' oadj' items').
+  Proof.
+    intros Hin Hot Hadj Hit. induction Hit as [|g g' r r' Hg Hr IH]; cbn [m_rerun_any].
+    - constructor. split; cbn [fst snd]; [reflexivity|constructor].
+    - gi_open Hg. rewrite Egxi. destruct (width (g_xintr g)).
+      + assert (Hsp : sz_rel O (item_available_space ax false ot oadj (get_ax inner (other_ax ax)) g)
+                               (item_available_space ax false ot' oadj' (get_ax inner' (other_ax ax)) g')).
+        { apply rel_item_available_space; try assumption. apply rel_get_ax. exact Hin. }
+        revert Hsp. generalize (item_available_space ax false ot oadj (get_ax inner (other_ax ax)) g)
+                               (item_available_space ax false ot' oadj' (get_ax inner' (other_ax ax)) g'). intros space space' Hsp.
+        eapply pbind_rel; [apply rel_min_content_contribution; eassumption|]. intros v v' Hv.
+        assert (Hg1 : gitem_rel k (set_ic_minimum (set_ic_max (set_ic_min (set_ic_avail g (Some space)) ax (Some v)) ax None) ax None)
+                                  (set_ic_minimum (set_ic_max (set_ic_min (set_ic_avail g' (Some space')) ax (Some v')) ax None) ax None)).
+        { apply rel_set_ic_minimum; [|exact I]. apply rel_set_ic_max; [|exact I]. apply rel_set_ic_min; [|exact Hv].
+          apply rel_set_ic_avail; [exact Hg|exact Hsp]. }
+        ic_open Hgc.
+        rewrite (rel_opt_eqb (Some v) (Some v') (get_ax (ic_min (g_cache g)) ax) (get_ax (ic_min (g_cache g')) ax));
+          [|exact Hv|apply rel_get_ax; exact Hicmin].
+        destruct (negb (opt_eqb (Some v) (get_ax (ic_min (g_cache g)) ax))).
+        * constructor. split; cbn [fst snd]; [reflexivity|constructor; assumption].
+        * eapply pbind_rel; [exact IH|]. intros [b r1] [b' r1'] [Hb Hr1]. cbn [fst snd] in Hb, Hr1. constructor.
+          split; cbn [fst snd]; [exact Hb|constructor; assumption].
+      + eapply pbind_rel; [exact IH|]. intros [b r1] [b' r1'] [Hb Hr1]. cbn [fst snd] in Hb, Hr1. constructor.
+        split; cbn [fst snd]; [exact Hb|constructor; assumption].
+  Qed.
 End Items.
